@@ -114,7 +114,8 @@ check("C17", "exploration",
       "DESIGN.md section 4 / C17")
 check("C02", "exploration",
       "By-construction conformance monitoring: a generator draws an abstract document (all core block and inline constructs of the statement) and derives independently a Markdown spelling under random surface choices (markers, ATX/Setext, fence character/length/indent, 0-3 columns of indentation, tabs reaching the same columns incl. after quote and list markers, lazy continuation lines, reference label case/whitespace variants, either emphasis delimiter, backslash/entity/numeric escapes) "
-      "and the HTML the specification prescribes; the converter's output must equal it up to whitespace adjacent to block tags. Second part: all 652 spec examples under eight spec-licensed rewrites against spec.json's HTML.",
+      "and the HTML the specification prescribes; the converter's output must equal it up to whitespace adjacent to block tags. Second part: all 652 spec examples under eight spec-licensed rewrites against spec.json's HTML. "
+      "Third part: an independent implementation of the emphasis (delimiter-run) rules, validated on the 103 applicable spec examples, is the reference model for every line over {*, _, a, space} up to length 8/10 and for random longer lines with punctuation.",
       "Trusted: the generator (harness/sg, ~1100 lines) - each construct is only generated where the specification fixes its meaning; no reference implementation exists on this machine, every deviation it reported was checked against the specification text before being treated as a defect. The claim covers the generated language and the rewrite set only.",
-      "runtime monitoring: by-construction expected-output oracle over generated documents plus spec.json as oracle over rewritten examples",
+      "runtime monitoring: by-construction expected-output oracle over generated documents, spec.json as oracle over rewritten examples, reference model of the emphasis rules in lock-step over exhaustive short lines",
       "DESIGN.md section 4 / C02")
